@@ -7,6 +7,7 @@ import (
 	"math"
 	"strings"
 	"verif/harness/exprpos"
+	"verif/harness/props/c04"
 	"verif/harness/props/c13"
 
 	"github.com/runreveal/pql/parser"
@@ -263,6 +264,9 @@ func generate(w *mon.W) {
 			}
 		}
 		for _, src := range gen.NameCollisionSources() {
+			do(src)
+		}
+		for _, src := range c04.SkeletonSources() {
 			do(src)
 		}
 		// every sequence of binary operators, unparenthesized, at three depths
